@@ -212,6 +212,30 @@ fn run_g<A: Sx>(c: &Case, out: &mut Out) {
                 } else {
                     out.violation(format!("{}/codon-table/from_map-panics", A::CID.name()), "from_map(array) panicked");
                 }
+                // the same codon listed more than once: `Into<HashMap>` keeps one entry per codon (the last value)
+                for (list, model) in [
+                    (vec![(0usize, 0usize), (1, 1), (0, 0)], vec![(0usize, 0usize), (1, 1)]),
+                    (vec![(0, 0), (1, 1), (0, 2)], vec![(0, 2), (1, 1)]),
+                    (vec![(2, 1), (2, 1), (2, 1)], vec![(2, 1)]),
+                    (vec![(0, 0), (4, 0), (0, 1), (4, 2)], vec![(0, 1), (4, 2)]),
+                ] {
+                    let arr: Vec<(Seq<A>, Amino)> = list.iter().map(|&(k, a)| e(k, a)).collect();
+                    let entries: Vec<(Vec<A>, Amino)> = model.iter().map(|&(k, a)| (keys[k].clone(), am[a])).collect();
+                    let t = match arr.len() {
+                        3 => {
+                            let a3: [(Seq<A>, Amino); 3] = arr.try_into().unwrap();
+                            catch(|| CodonTable::<A, Amino>::from_map(a3))
+                        }
+                        _ => {
+                            let a4: [(Seq<A>, Amino); 4] = arr.try_into().unwrap();
+                            catch(|| CodonTable::<A, Amino>::from_map(a4))
+                        }
+                    };
+                    match t {
+                        Ok(t) => query::<A>(&t, &entries, &format!("array with a repeated codon {list:?}, repetition {rep}"), &[0, 2], out),
+                        Err(m) => out.violation(format!("{}/codon-table/from_map-panics", A::CID.name()), m),
+                    }
+                }
                 let t0 = catch(|| CodonTable::<A, Amino>::from_map([] as [(Seq<A>, Amino); 0]));
                 if let Ok(t0) = t0 {
                     query::<A>(&t0, &[], "empty array", &[0], out);
